@@ -11,6 +11,19 @@
 (* the shortest simple paths (counted on the tight-edge DAG), and Yen's answers *)
 (* are loopless, distinct, non-decreasing, start with an optimal path and       *)
 (* respect k and the cost bound.                                                *)
+(*                                                                              *)
+(* A* with a heuristic (events "aheur" / "astar"): a heuristic table is only     *)
+(* usable after the specification has CERTIFIED it on the current graph with its *)
+(* own arithmetic (h(t,t) = 0, h >= 0, h(u,t) <= w(u,v) + h(v,t) on every edge:   *)
+(* consistent, hence admissible); rows of A* answers (one source, every target)  *)
+(* must then equal the true weights, each with a real walk of that weight.  The  *)
+(* open-queue / decrease-key machinery of the routines (aStarQueue, Dijkstra's   *)
+(* priority queue, Yen's candidate heap) is unexported; it is bound through these *)
+(* rows: whatever the queue does, every answer must be the fixed point.          *)
+(*                                                                              *)
+(* D* Lite worlds (events "graph" with r = "dstar-..."): the class a world claims *)
+(* to belong to is checked here (GateWorld: zero-weight edges only at the goal;   *)
+(* NoZeroCycleOffGoal: every zero-weight cycle passes through the goal).         *)
 EXTENDS PathDefs, Json, TLCExt
 
 \* KnownCut = TRUE relaxes exactly one clause (see PathOKAlt); it is used only for a second pass
@@ -24,8 +37,9 @@ VARIABLES l,      \* cursor
           gIn,    \* gIn[v]: set of <<u, w>>
           gOut,   \* gOut[u]: set of successors
           gTW,    \* gTW[s][t]: true weights (extended integers)
-          gH      \* D* Lite: the heuristic table handed to the current planner (<<>>: none)
-tvars == <<l, gn, gIn, gOut, gTW, gH>>
+          gH,     \* D* Lite: the heuristic table handed to the current planner (<<>>: none)
+          gAH     \* A*: the heuristic table certified for the current graph (<<>>: none)
+tvars == <<l, gn, gIn, gOut, gTW, gH, gAH>>
 
 Ev == TraceLog[l]
 
@@ -79,6 +93,19 @@ CountShortest(s) ==
                  IN Fold(i + 1, [cnt EXCEPT ![v] = c])
     IN Fold(1, [v \in 1 .. gn |-> 0])
 
+(*********************** classes of D* Lite worlds **************************)
+\* zero-weight edges only into or out of the goal (free gates at the goal)
+GateWorld(n, in, goal) == \A v \in 1 .. n : \A x \in in[v] : x[2] = 0 => (v = goal \/ x[1] = goal)
+\* every zero-weight cycle passes through the goal: the zero-weight edges between the other
+\* nodes form an acyclic graph
+NoZeroCycleOffGoal(n, in, goal) ==
+    LET zout == [u \in 1 .. n |-> {v \in (1 .. n) \ {goal} : u # goal /\ \E x \in in[v] : x[1] = u /\ x[2] = 0}]
+    IN \A u \in (1 .. n) \ {goal} : u \notin Closure(zout, zout[u])
+
+\* tags of the worlds a living planner is told about (UpdateWorld); every other graph event
+\* starts afresh
+DLater == {"dstar-world", "dstar-gate", "dstar-zero"}
+
 (********************************** events **********************************)
 Graph ==
     /\ Ev.op = "graph"
@@ -90,9 +117,13 @@ Graph ==
     /\ \A u \in 1 .. Ev.n : \A v \in gOut'[u] : \E x \in gIn'[v] : x[1] = u
     /\ gTW' = [s \in 1 .. Ev.n |-> RowB(Ev.n, gIn', gOut', s)]
     \* a new world of a living D* Lite planner: its heuristic must stay dominated by the edge costs
-    /\ gH' = IF Ev.r = "dstar-world" THEN gH ELSE <<>>
-    /\ (Ev.r = "dstar-world" /\ gH # <<>>) =>
+    /\ gH' = IF Ev.r \in DLater THEN gH ELSE <<>>
+    /\ (Ev.r \in DLater /\ gH # <<>>) =>
           \A v \in 1 .. Ev.n : \A x \in gIn'[v] : gH[x[1]][v] <= x[2]
+    /\ gAH' = <<>>
+    \* D* Lite worlds with zero-weight edges state their class and their goal
+    /\ Ev.r \in {"dstar-gate0", "dstar-gate"} => GateWorld(Ev.n, gIn', Ev.goal)
+    /\ Ev.r \in {"dstar-zero0", "dstar-zero"} => NoZeroCycleOffGoal(Ev.n, gIn', Ev.goal)
 
 RowMatches(s, w, p) == \A t \in 1 .. gn :
     /\ w[t] = gTW[s][t]
@@ -111,7 +142,7 @@ Sssp ==
             /\ Ev.ok = ~NegCycleFrom(Ev.s)
             /\ Ev.ok => RowMatches(Ev.s, Ev.w, Ev.p)
             /\ ~Ev.ok => \A t \in 1 .. gn : gTW[Ev.s][t] = PInf => Ev.w[t] = PInf
-    /\ UNCHANGED <<gn, gIn, gOut, gTW, gH>>
+    /\ UNCHANGED <<gn, gIn, gOut, gTW, gH, gAH>>
 
 \* point-to-point queries (DijkstraFromTo, AStar with the null heuristic): when a negative edge is
 \* reachable a panic or any answer is allowed by the documentation
@@ -121,7 +152,7 @@ Pt ==
     /\ ~NegEdgeFrom(Ev.s) => /\ ~Ev.panic
                              /\ Ev.w = gTW[Ev.s][Ev.t]
                              /\ PathOK(Ev.s, Ev.t, Ev.p, gTW[Ev.s][Ev.t])
-    /\ UNCHANGED <<gn, gIn, gOut, gTW, gH>>
+    /\ UNCHANGED <<gn, gIn, gOut, gTW, gH, gAH>>
 
 \* all-pairs: DijkstraAllPaths panics iff any negative edge; FloydWarshall / Johnson ok = FALSE iff
 \* any negative cycle; FloydWarshall's weights stay valid (and -inf on affected pairs) even then
@@ -135,7 +166,7 @@ Apsp ==
                 LET q == Ev.pp[i] e == gTW[q.s][q.t]
                 IN IF e = NInf THEN Len(q.p) = 0 /\ q.w = NInf
                    ELSE q.w = e /\ PathOKAlt(q.s, q.t, q.p, e)
-    /\ UNCHANGED <<gn, gIn, gOut, gTW, gH>>
+    /\ UNCHANGED <<gn, gIn, gOut, gTW, gH, gAH>>
 
 \* all shortest paths s -> t (AllTo / AllBetween): exactly the shortest simple paths
 All ==
@@ -148,7 +179,7 @@ All ==
                   /\ Cardinality(ps) = Len(Ev.ps)                  \* distinct
                   /\ Len(Ev.ps) >= 1
                   /\ AllPositive => Sat(Len(Ev.ps)) = CountShortest(Ev.s)[Ev.t]
-    /\ UNCHANGED <<gn, gIn, gOut, gTW, gH>>
+    /\ UNCHANGED <<gn, gIn, gOut, gTW, gH, gAH>>
 
 \* Yen: loopless, distinct, non-decreasing, first one optimal, within k and the cost bound
 \* (cost code 99: unbounded).  "Omits no cheaper path" is judged only in the enumeration bound of
@@ -169,7 +200,38 @@ Yen ==
                    /\ wt[1] = e[2]
                    /\ \A i \in 1 .. n - 1 : wt[i] <= wt[i + 1]
                    /\ Ev.c # 99 => \A i \in 1 .. n : wt[i] <= e[2] + Ev.c
+    /\ UNCHANGED <<gn, gIn, gOut, gTW, gH, gAH>>
+
+\* A heuristic table for A*: h[v][t] estimates the weight v -> t.  Accepted only if the
+\* specification can certify it on the current graph: zero at the target, never negative and
+\* consistent along every edge.  A consistent heuristic with h(t,t) = 0 is admissible
+\* (induction along a shortest path), so A* must return the true weight.
+AHeur ==
+    /\ Ev.op = "aheur"
+    /\ Len(Ev.h) = gn
+    /\ \A v \in 1 .. gn : Len(Ev.h[v]) = gn /\ Ev.h[v][v] = 0 /\ \A t \in 1 .. gn : Ev.h[v][t] >= 0
+    /\ \A v \in 1 .. gn : \A x \in gIn[v] : \A t \in 1 .. gn : Ev.h[x[1]][t] <= x[2] + Ev.h[v][t]
+    \* hence admissible wherever t is reachable (implied by the lines above; kept as a guard)
+    /\ \A v \in 1 .. gn : \A t \in 1 .. gn : IsFin(gTW[v][t]) => Ev.h[v][t] <= gTW[v][t][2]
+    /\ gAH' = Ev.h
     /\ UNCHANGED <<gn, gIn, gOut, gTW, gH>>
+
+\* one row of A* answers: AStar(s, t, g, h).To(t) for every target t, heuristic kind hk:
+\* "null" (NullHeuristic), "nil" (nil heuristic, graph without HeuristicCost), "table" (the
+\* certified table as a function), "coster" (nil heuristic, the graph's HeuristicCost method
+\* answers from the certified table).  Negative edges: the documentation allows a panic or any
+\* answer.
+AStarRow ==
+    /\ Ev.op = "astar"
+    /\ Ev.s \in 1 .. gn
+    /\ Ev.hk \in {"null", "nil", "table", "coster"}
+    /\ Ev.hk \in {"table", "coster"} => gAH # <<>>
+    /\ ~NegEdgeFrom(Ev.s) =>
+          /\ Len(Ev.w) = gn /\ Len(Ev.p) = gn /\ Len(Ev.panic) = gn
+          /\ \A t \in 1 .. gn : /\ ~Ev.panic[t]
+                                 /\ Ev.w[t] = gTW[Ev.s][t]
+                                 /\ PathOK(Ev.s, t, Ev.p[t], gTW[Ev.s][t])
+    /\ UNCHANGED <<gn, gIn, gOut, gTW, gH, gAH>>
 
 (* D* Lite (graph/path/dynamic): the recorder logs the planner's world as a "graph" event after    *)
 (* every UpdateWorld, the answer of Path() and every Step().  After every action Path() must be a    *)
@@ -185,14 +247,14 @@ DNew ==
     /\ \A a, b, c \in 1 .. gn : Ev.h[a][c] <= Ev.h[a][b] + Ev.h[b][c]
     /\ \A v \in 1 .. gn : \A x \in gIn[v] : Ev.h[x[1]][v] <= x[2]
     /\ gH' = Ev.h
-    /\ UNCHANGED <<gn, gIn, gOut, gTW>>
+    /\ UNCHANGED <<gn, gIn, gOut, gTW, gAH>>
 
 DPath ==
     /\ Ev.op = "dpath"
     /\ ~Ev.panic
     /\ Ev.w = gTW[Ev.here][Ev.goal]
     /\ PathOK(Ev.here, Ev.goal, Ev.p, gTW[Ev.here][Ev.goal])
-    /\ UNCHANGED <<gn, gIn, gOut, gTW, gH>>
+    /\ UNCHANGED <<gn, gIn, gOut, gTW, gH, gAH>>
 
 DStep ==
     /\ Ev.op = "dstep"
@@ -202,11 +264,11 @@ DStep ==
           /\ Ev.ret => /\ HasEdge(Ev.from, Ev.here) /\ IsFin(gTW[Ev.here][Ev.goal])
                         /\ W(Ev.from, Ev.here) + gTW[Ev.here][Ev.goal][2] = e[2]
           /\ ~Ev.ret => Ev.here = Ev.from
-    /\ UNCHANGED <<gn, gIn, gOut, gTW, gH>>
+    /\ UNCHANGED <<gn, gIn, gOut, gTW, gH, gAH>>
 
-TraceInit == l = 1 /\ gn = 0 /\ gIn = <<>> /\ gOut = <<>> /\ gTW = <<>> /\ gH = <<>>
+TraceInit == l = 1 /\ gn = 0 /\ gIn = <<>> /\ gOut = <<>> /\ gTW = <<>> /\ gH = <<>> /\ gAH = <<>>
 TraceNext == /\ l <= Len(TraceLog)
-             /\ (Graph \/ Sssp \/ Pt \/ Apsp \/ All \/ Yen \/ DNew \/ DPath \/ DStep)
+             /\ (Graph \/ Sssp \/ Pt \/ Apsp \/ All \/ Yen \/ AHeur \/ AStarRow \/ DNew \/ DPath \/ DStep)
              /\ l' = l + 1
 TraceSpec == TraceInit /\ [][TraceNext]_tvars
 
